@@ -1,6 +1,7 @@
 package props
 
 import (
+	"go/types"
 	"fmt"
 	"sort"
 	"strings"
@@ -353,6 +354,20 @@ func compareTable(c *fw.Ctx, rule, what string, fn *ssa.Function, resIdx int, va
 		for o := range outs {
 			if !oracleOutcomes[o] && strings.HasPrefix(o, "value:") && strings.ContainsAny(o, "(") {
 				foreign = true // a computed value the interpretation cannot evaluate
+			}
+		}
+		// the decision is delegated to a method of an unexported interface (a strategy object) or
+		// to a function value: what it decides is not visible in this table
+		for _, r := range rows {
+			if !oracleOutcomes[rowValue(r)] && r.Call != nil {
+				cm := r.Call.Common()
+				if cm.IsInvoke() {
+					if named, ok := cm.Value.Type().(*types.Named); ok && named.Obj() != nil && !named.Obj().Exported() {
+						foreign = true
+					}
+				} else if cm.StaticCallee() == nil {
+					foreign = true
+				}
 			}
 		}
 		if got != want && (strings.Contains(got, "unknown") || (foreign && len(rows) > 0)) {
